@@ -944,6 +944,42 @@ var scenarioTable = map[string]func(s *sc){
 		s.flush(func(p pending, k string) bool { return p.to == 3 && k == "C" && msgHeight(p) == 1 })
 		s.flush(any)
 	},
+	// C01: the same members (same keys) also run ANOTHER instance, which has decided block Z at height 2.  n3 lags at height 1 in
+	// this instance while the others decide heights 1 and 2.  The Byzantine member n2 replays the other instance's complete round
+	// of height 2 (PREPREPARE, PREPAREs, COMMIT quorum - all genuinely signed, for the other instance id) to n3, where it would
+	// wait in the future cache; then n3 catches up.  It must decide this instance's block at height 2.
+	"round_of_another_instance_replayed_to_a_lagging_member": func(s *sc) {
+		s.startNodes()
+		for guard := 0; guard < 400; guard++ { // n0, n1 (and the Byzantine n2, which follows) decide heights 1 and 2; n3 receives nothing
+			if s.node(0).st.Height() >= 3 && s.node(1).st.Height() >= 3 {
+				break
+			}
+			if s.flushOne(func(p pending, k string) bool { return p.to != 3 }) == 0 {
+				for _, v := range []uint64{0} {
+					s.byzFollows(2, v)
+				}
+				if s.flushOne(func(p pending, k string) bool { return p.to != 3 }) == 0 {
+					break
+				}
+			}
+		}
+		z := s.adv.newBody(s.run, 2, false)
+		other := clusterInstance + 1
+		rf := func(ht protocol.MessageType) refD {
+			r := ref(ht, 2, 0, z)
+			r.inst = other
+			return r
+		}
+		s.inject(3, s.adv.mkPP(rf(protocol.LEAN_HELIX_PREPREPARE), s.cl.ids[0], "otherinst", z), "pp_other_instance_genuine")
+		for _, i := range []int{1, 2} {
+			s.inject(3, s.adv.mkP(rf(protocol.LEAN_HELIX_PREPARE), s.cl.ids[i], "otherinst"), "p_other_instance_genuine")
+		}
+		for _, i := range []int{0, 1, 2} {
+			s.inject(3, s.adv.mkC(rf(protocol.LEAN_HELIX_COMMIT), s.cl.ids[i], "otherinst", "otherinst"), "c_other_instance_genuine")
+		}
+		s.flushAll(func(p pending, k string) bool { return p.to == 3 && msgHeight(p) == 1 })
+		s.flush(any)
+	},
 	// lagging node (all honest): n3 receives the traffic of height 2 first (future cache), then height 1; the
 	// commit of height 1 starts round 2, whose drain commits height 2 in the middle (H11 in situ)
 	"lagging_node_drains_cached_height": func(s *sc) {
@@ -989,7 +1025,7 @@ func scenarioByz(name string) []int {
 	case "lagging_member_with_foreign_instance_prepare_in_its_future_cache", "byzantine_commit_for_another_hash_before_two_genuine_commits",
 		"byzantine_commit_with_share_copied_from_a_genuine_commit", "vote_with_genuine_proof_and_another_block_to_a_leader_holding_the_proposal":
 		return []int{3}
-	case "fork_via_proof_with_prepares_of_older_view", "heavy_pair_vote_with_unvalidated_block_but_no_proof":
+	case "fork_via_proof_with_prepares_of_older_view", "heavy_pair_vote_with_unvalidated_block_but_no_proof", "round_of_another_instance_replayed_to_a_lagging_member":
 		return []int{2}
 	}
 	return []int{1}
